@@ -206,7 +206,7 @@ gershgorin = Unit(
     functions=['backend::spectral_radius<scale>(const Matrix&, int power_iters) -- branch power_iters <= 0'],
     desc='Gershgorin estimate: the value returned is max_i sum_j norm(a_ij) [* norm(inverse(a_ii)) when scale] as a fold in '
          'evaluation order over uninterpreted value operations; A is not modified; both template instantiations of scale',
-    cuts={'body': Cut(BUILTIN, r'const ptrdiff_t n = backend::rows\(A\);\s*scalar_type radius;', kind='region',
+    cuts={'body': Cut(BUILTIN, r'const ptrdiff_t n = backend::rows\(A\);\s*scalar_type radius[^;]*;', kind='region',
                       end=r'\} else \{\s*// Power method\.',
                       rules=[COMPOUND('s'),
                              IdxRule(r'A\.col|A\.val', 'A.ptr[A.nrows]', '+'),
@@ -1297,7 +1297,7 @@ gershgorin_ind = Unit(
     desc='Gershgorin estimate for every size: the value returned is max(0, E_n) (2 if that compares below 0) where E_0 = 0, '
          'E_{i+1} = max(E_i, R_i), R_i = S_i [* norm(inverse(a_ii)) when scale] and S_i = the sum of norm(a_ij) over row i in storage order; '
          'S and E are ghost sequences defined by these recurrences; A is not modified',
-    cuts={'body': Cut(BUILTIN, r'const ptrdiff_t n = backend::rows\(A\);\s*scalar_type radius;', kind='region',
+    cuts={'body': Cut(BUILTIN, r'const ptrdiff_t n = backend::rows\(A\);\s*scalar_type radius[^;]*;', kind='region',
                       end=r'\} else \{\s*// Power method\.',
                       rules=[COMPOUND('s'),
                              Rule(r'(scalar_type s\s*=[^;]*;)', r'\1 ROW_OK(i); DIAG_OK(i);', None, why='pointwise instantiation of crs_wf and of "row i stores its diagonal at g_dp[i]" at the row read'),
